@@ -427,7 +427,7 @@ func projectCR(u *unstructured.Unstructured) CRP {
 		c.Paused, _ = spec["paused"].(bool)
 		c.Hash = getStr(status, "unpackedHash")
 		c.Revision = toInt(status["revision"])
-		c.TmplHash = shortHash([]any{spec["image"], spec["config"], spec["components"]})
+		c.TmplHash = shortHash([]any{spec["image"], spec["config"], spec["component"]})
 	case "ObjectTemplate", "ClusterObjectTemplate":
 		c.TmplHash = shortHash(spec)
 		c.Class = "ok"
